@@ -64,12 +64,13 @@ def run_one(mu, scale, jobs):
         rec['compiles'] = True
         r = subprocess.run([os.path.join(ROOT, 'tools', 'suite_on_tree.sh'), tmp], stdout=subprocess.PIPE, stderr=subprocess.STDOUT, text=True); rec['suite'] = 'pass' if r.returncode == 0 else 'fail'
         out = tempfile.mkdtemp(prefix='fm-sw-out-'); killed = []; errors = []
-        env = dict(os.environ, VERIF_REPO=tmp, VERIF_OUT=out, VERIF_SCALE=str(scale), VERIF_NOEXTRA='1', VERIF_JOBS=str(jobs))
+        env = dict(os.environ, VERIF_REPO=tmp, VERIF_OUT=out, VERIF_SCALE=str(scale), VERIF_NOEXTRA='1', VERIF_JOBS=str(jobs), VERIF_WORKER_TIMEOUT='90')
         order = ['C01', 'C02', 'C03', 'C04', 'C05', 'C15', 'C18', 'C06', 'C16', 'C17', 'C09', 'C10', 'C11', 'C12', 'C13', 'C14', 'C19', 'C20', 'C07', 'C08']
         for pid in order:
             if killed and not ALLCHECKS: break     # the sweep looks for survivors: stop at the first check that reports the mutant
             r = subprocess.run([sys.executable, os.path.join(ROOT, 'verif.py'), 'check', pid, '--tier', 'quick'], stdout=subprocess.PIPE, stderr=subprocess.PIPE, text=True, env=env)
             if r.returncode == 1 and 'VIOLATION' in r.stdout: killed.append(pid)
+            elif 'exited 124' in r.stderr: killed.append(pid + '(hang)')      # a library call that does not return within 90 s
             elif r.returncode not in (0, 1): errors.append(pid)
         rec['killed_by'] = killed; rec['errors'] = errors
         shutil.rmtree(out, ignore_errors=True)
